@@ -355,13 +355,24 @@ func finding(kind, class, what string, c *Case, extra map[string]any) {
 	rep.Add(lib.Finding{Kind: kind, Class: class, What: what, Replay: replayOf(c, extra)})
 }
 
+// knownFinding records a violation that a listed known finding explains. The class of a known finding is
+// its id plus the evaluator (the representation and the flags are in the replay), so that the report keeps
+// room for everything else.
 func knownFinding(id, class, what string, c *Case, extra map[string]any) {
 	if !lib.HasKnown(knownList, id) {
 		// not listed (any more): it is a plain violation
 		finding("violation", class, what, c, extra)
 		return
 	}
-	rep.Add(lib.Finding{Kind: "known", Class: class, What: what, Replay: replayOf(c, extra), KnownID: id})
+	if extra == nil {
+		extra = map[string]any{}
+	}
+	extra["class"] = class
+	short := id
+	if i := strings.IndexByte(class, ':'); i > 0 {
+		short = id + ":" + class[:i]
+	}
+	rep.Add(lib.Finding{Kind: "known", Class: short, What: what, Replay: replayOf(c, extra), KnownID: id})
 }
 
 var sampleCounter int64
@@ -600,8 +611,11 @@ func modelOut(ev, ans string) out {
 	case "gets":
 		return out{vals: valuesOf(splitVals(ans))}
 	case "first", "firstnode":
-		if ans == "none" || ev == "firstnode" && ans == "some n" {
-			return out{} // FirstNode returns nil for "nothing" as well as for a null element
+		if ev == "firstnode" && ans == "some n" {
+			return out{val: "n"} // FirstNode returns nil for "nothing" as well as for a null element
+		}
+		if ans == "none" {
+			return out{}
 		}
 		return out{found: true, val: strings.TrimPrefix(ans, "some ")}
 	case "has":
@@ -673,6 +687,12 @@ func tied(ev string, o, m out, ordered bool) bool {
 	case "has":
 		return o.found == m.found
 	case "first", "firstnode":
+		if ev == "firstnode" && !ordered && (m.val == "n" || !o.found) {
+			return true // a null member may be the one the map iteration visits first
+		}
+		if ev == "firstnode" && m.val == "n" && !m.found {
+			return !o.found
+		}
 		if o.found != m.found {
 			return false
 		}
@@ -706,6 +726,12 @@ func (w *worker) runC11(c *Case, pw, dw string) error {
 		if !ok {
 			continue
 		}
+		if r != repSimple && c.p.has('f') && !c.p.sameTruth(c.t.all(nil), r) {
+			// the script itself evaluates differently on this representation (a nested path inside the script
+			// meets one of the representation deviations): scripts are C12's subject, the case is left out
+			rep.Count("skipped.script_differs_on."+r.String(), 1)
+			continue
+		}
 		ord := ordSimple || r.orderedObjects()
 		for _, ev := range evaluators {
 			var o out
@@ -713,7 +739,7 @@ func (w *worker) runC11(c *Case, pw, dw string) error {
 			case "get":
 				o = goGet(x, data)
 			case "first":
-				o = goFirst(x, data, ord)
+				o = goFirst(x, data, ord && !(c.p.descentAfterFrag() && !ordSimple))
 			case "has":
 				o = goHas(x, data)
 			case "locate":
@@ -844,7 +870,9 @@ func unmodelled(ev string, r Rep, p Path) string {
 func (w *worker) explainC11(c *Case, pw, dw string, q query, ordered bool) (string, string, error) {
 	qs := []query{{q.op, q.rep, "-"}, {"get", "any.map", "-"}, {q.op, q.rep, "P"}, {"get", "any.map", "P"}}
 	for i := 0; i < len(allFlags); i++ {
-		qs = append(qs, query{q.op, q.rep, without(allFlags[i])}, query{"get", "any.map", without(allFlags[i])})
+		f := string(allFlags[i])
+		qs = append(qs, query{q.op, q.rep, without(allFlags[i])}, query{"get", "any.map", without(allFlags[i])},
+			query{q.op, q.rep, f}, query{"get", "any.map", f})
 	}
 	ans, err := w.ask(c, pw, dw, qs)
 	if err != nil {
@@ -854,9 +882,12 @@ func (w *worker) explainC11(c *Case, pw, dw string, q query, ordered bool) (stri
 	if ok, _ := agrees(ev, modelOut(ev, ans[0]), splitVals(ans[1]), ordered); !ok {
 		return "", "", nil // not explained: even the repaired model disagrees with Get
 	}
+	// a flag is involved if removing it alone from the pinned configuration, or adding it alone to the
+	// repaired one, changes the evaluator's or Get's answer
 	var flags []byte
 	for i := 0; i < len(allFlags); i++ {
-		if ans[4+2*i] != ans[2] || ans[5+2*i] != ans[3] {
+		b := 4 + 4*i
+		if ans[b] != ans[2] || ans[b+1] != ans[3] || ans[b+2] != ans[0] || ans[b+3] != ans[1] {
 			flags = append(flags, allFlags[i])
 		}
 	}
